@@ -10,6 +10,10 @@
  *                                  L (the matcher failed on this string, e.g. PCRE2 match limit)
  *   matchlist <string> (<inv> <pattern>)*  -> lyd_value_validate() on a leaf whose type has all the listed
  *                                  patterns, those with inv = 1 carrying "modifier invert-match": 1 / 0 / E
+ *   entry <pattern> <string>+   -> per string "<a> <b> <c>" (joined by ','): a and b as for match, c = the XPath
+ *                                  function re-match(/x:s, /x:p) evaluated by lyd_eval_xpath() on a data tree whose
+ *                                  leaves s and p hold the string and the pattern: 1 / 0, E (evaluation failed:
+ *                                  pattern rejected), V (string or pattern is not a valid value of a YANG string leaf)
  *
  * Linked with --wrap=pcre2_compile_8: __wrap_pcre2_compile_8 records the pattern text and calls the real function.
  * VERIF_FLAGS: -Wl,--wrap=pcre2_compile_8
@@ -143,6 +147,34 @@ validate(int n, char **invs, char **pats, const char *str, size_t slen)
     return (r == LY_SUCCESS) ? '1' : ((r == LY_EVALID) ? '0' : 'L');
 }
 
+/* XPath re-match(): context with two string leaves, the arguments are taken from a data tree */
+static struct ly_ctx *xctx = NULL;
+
+static char
+xpath_rematch(const char *pat, const char *str)
+{
+    struct lyd_node *tree = NULL;
+    ly_bool res = 0;
+    LY_ERR r;
+    char out;
+
+    if (!xctx) {
+        if (ly_ctx_new(NULL, 0, &xctx) || lys_parse_mem(xctx, "module x {yang-version 1.1; namespace \"urn:x\"; prefix x;"
+                " leaf s {type string;} leaf p {type string;}}", LYS_IN_YANG, NULL)) {
+            return '?';
+        }
+    }
+    if (lyd_new_path(NULL, xctx, "/x:s", str, 0, &tree) || lyd_new_path(tree, NULL, "/x:p", pat, 0, NULL)) {
+        out = 'V';
+    } else {
+        r = lyd_eval_xpath(tree, "re-match(/x:s, /x:p)", &res);
+        out = r ? 'E' : (res ? '1' : '0');
+    }
+    lyd_free_all(tree);
+    ly_err_clean(xctx, NULL);
+    return out;
+}
+
 int
 main(void)
 {
@@ -189,6 +221,21 @@ main(void)
                 free(str);
             }
             free(pat);
+        } else if (!strcmp(comp, "entry") && (c.nf >= 3)) {
+            size_t plen, slen;
+            char *pat = vunhex(c.f[1], &plen);
+
+            for (int i = 2; i < c.nf; i++) {
+                char *str = vunhex(c.f[i], &slen);
+                LY_ERR r;
+
+                r = ly_pattern_match(ctx, pat, str, (uint32_t)slen, NULL);
+                ly_err_clean(ctx, NULL);
+                printf("%s%c %c %c", (i > 2) ? "," : "", (r == LY_SUCCESS) ? '1' : ((r == LY_ENOT) ? '0' : ((r == LY_EVALID) ? 'E' : 'L')),
+                        validate(1, &zero, &c.f[1], str, slen), xpath_rematch(pat, str));
+                free(str);
+            }
+            free(pat);
         } else if (!strcmp(comp, "matchlist") && (c.nf >= 2)) {
             size_t slen;
             char *str = vunhex(c.f[1], &slen), *invs[VMAXF], *pats[VMAXF];
@@ -206,6 +253,7 @@ main(void)
         VEND();
     }
     ly_ctx_destroy(mctx);
+    ly_ctx_destroy(xctx);
     ly_ctx_destroy(ctx);
     free(seen_pat);
     free(mkey);
